@@ -86,16 +86,31 @@ func init() {
 		"atomic.AddUint64":     atomicAdd,
 		"atomic.LoadInt64":     atomicLoad,
 		"atomic.LoadInt32":     atomicLoad,
+		"strconv.Atoi": func(f *Frame, c *ssa.CallCommon, a []Val, st *State) Val {
+			// digit strings convert exactly (str.to_int); anything else: value and error are left open
+			u := f.u
+			n := u.defs.Define("toint", App("str.to_int", SInt, a[0].T))
+			v := u.defs.Fresh("atoi_v", SInt)
+			e := u.defs.Fresh("atoi_err", SIface)
+			nilI := Term{"nil_iface", SIface}
+			inRange := App("<=", SBool, n, BigIntLit("9223372036854775807"))
+			u.assume(st, And(
+				Implies(And(App(">=", SBool, n, IntLit(0)), inRange), And(Eq(v, n), Eq(e, nilI))),
+				App("<=", SBool, BigIntLit("-9223372036854775808"), v), App("<=", SBool, v, BigIntLit("9223372036854775807")),
+			))
+			return Val{Tup: []Val{{T: v}, {T: e}}}
+		},
 		"strconv.Itoa": func(f *Frame, c *ssa.CallCommon, a []Val, st *State) Val {
 			return Val{T: App("itoa", SString, a[0].T)}
 		},
 		"errors.Is": func(f *Frame, c *ssa.CallCommon, a []Val, st *State) Val {
-			// errors.Is(e, target): true if e == target; false if e == nil and target != nil; otherwise unknown (wrapping)
+			// errors.Is(e, target) is the uninterpreted relation err_is(e, target) with: true when e == target (non-nil),
+			// false when e is nil and target is not; wrapping is otherwise left open (contracts may constrain it with errIs)
 			u := f.u
-			r := u.defs.Fresh("errors_is", SBool)
+			r := u.defs.Define("errors_is", App("err_is", SBool, a[0].T, a[1].T))
 			nilI := Term{"nil_iface", SIface}
 			u.assume(st, And(
-				Implies(Eq(a[0].T, a[1].T), r),
+				Implies(And(Eq(a[0].T, a[1].T), Not(Eq(a[0].T, nilI))), r),
 				Implies(And(Eq(a[0].T, nilI), Not(Eq(a[1].T, nilI))), Not(r)),
 			))
 			return Val{T: r}
